@@ -21,6 +21,14 @@ RULE = ('one run = 2-4 client tasks (own transaction manager, pooled '
         'than the last commit returned before the boundary; non-trivial = '
         '>= 2 commits and >= 1 context switch; distinct = hash of the '
         'schedule trace')
+RULE += ('  '
+         'Later additions: speculative '
+         'savepoint/modify/savepoint/rollback steps; one run in eight '
+         'with line-level pre-emption inside the MVCC adapter or the '
+         'read-handle pool; bystander tasks asking the storage itself '
+         '(getTid, history, loadSerial, undoLog, lastInvalidations) '
+         "with an oracle on their answers; the serial a connection's "
+         'copy carries after its commit. ')
 BUDGET = {'quick': {'runs': 6000, 'wall': 300, 'chunk': 20},
           'thorough': {'runs': 600000, 'wall': 1200, 'chunk': 100}}
 ASSUMPTIONS = [
